@@ -38,6 +38,7 @@ type Case struct {
 	Closed  bool      `json:"closed,omitempty"`
 	Ring    []gen.P   `json:"ring,omitempty"` // ring: unclosed vertex list; all spellings are checked
 	G       *gen.G    `json:"g,omitempty"`
+	Layout  string    `json:"layout,omitempty"` // box, ring, geom: memory layout of the measured value: shared, spare or plain
 }
 
 func fp(v float64) *gen.F { f := gen.F(v); return &f }
@@ -73,17 +74,17 @@ func checkCase(c Case) error {
 				extra[e] = append(extra[e], float64(f))
 			}
 		}
-		return checkBox(c.Box.Bound(), extra, c.Rot, c.Rev, c.Closed)
+		return checkBox(c.Box.Bound(), extra, c.Rot, c.Rev, c.Closed, c.Layout)
 	case "ring":
 		if len(c.Ring) < 3 {
 			return fmt.Errorf("harness: malformed ring case")
 		}
-		return checkRing(gen.OrbPts(c.Ring))
+		return checkRing(gen.OrbPts(c.Ring), c.Layout)
 	case "geom":
 		if c.G == nil {
 			return fmt.Errorf("harness: malformed geom case")
 		}
-		return checkGeom(c.G.V)
+		return checkGeom(c.G.V, c.Layout)
 	}
 	return fmt.Errorf("harness: unknown case kind %q", c.Kind)
 }
@@ -457,7 +458,9 @@ func TestPropBox(t *testing.T) {
 		c.Rot = rapid.IntRange(0, 3+nExtra).Draw(rt, "rot")
 		c.Rev = rapid.Bool().Draw(rt, "rev")
 		c.Closed = rapid.Bool().Draw(rt, "closed")
+		c.Layout = rapid.SampledFrom(layouts).Draw(rt, "layout")
 		stats.Class("box:" + class)
+		stats.Class("layout(box):" + c.Layout)
 		if nExtra > 0 {
 			stats.Class("box*:extra vertices on edges")
 			stats.NonTrivial(gen.JSON(c)) // ring with >= 5 vertices
@@ -515,8 +518,9 @@ func TestPropRing(t *testing.T) {
 		n := rapid.IntRange(3, 12).Draw(rt, "n")
 		scale := logUniform(rt, -3, 0.5, "scale")
 		verts := genRingVerts(rt, genCentre(rt), scale, n, class)
-		c := Case{Kind: "ring", Ring: gen.Pts(verts)}
+		c := Case{Kind: "ring", Ring: gen.Pts(verts), Layout: rapid.SampledFrom(layouts).Draw(rt, "layout")}
 		stats.Class("ring:" + class)
+		stats.Class("layout(ring):" + c.Layout)
 		stats.Class(fmt.Sprintf("ring*:%02d vertices", n))
 		if n >= 5 {
 			stats.NonTrivial(gen.JSON(c))
@@ -636,15 +640,64 @@ func maxRingLen(g orb.Geometry) int {
 	return m
 }
 
+// countRings counts the rings (and line strings) of g; with needUnclosed it returns 0
+// unless at least one ring of >= 3 vertices is spelled unclosed.
+func countRings(g orb.Geometry, needUnclosed bool) int {
+	n, unclosed := 0, false
+	var walk func(g orb.Geometry)
+	ring := func(r []orb.Point, isRing bool) {
+		n++
+		if isRing && len(r) >= 3 && r[0] != r[len(r)-1] {
+			unclosed = true
+		}
+	}
+	walk = func(g orb.Geometry) {
+		switch g := g.(type) {
+		case orb.Ring:
+			ring(g, true)
+		case orb.LineString:
+			ring(g, false)
+		case orb.MultiLineString:
+			for _, l := range g {
+				ring(l, false)
+			}
+		case orb.Polygon:
+			for _, r := range g {
+				ring(r, true)
+			}
+		case orb.MultiPolygon:
+			for _, p := range g {
+				for _, r := range p {
+					ring(r, true)
+				}
+			}
+		case orb.Collection:
+			for _, m := range g {
+				walk(m)
+			}
+		}
+	}
+	walk(g)
+	if needUnclosed && !unclosed {
+		return 0
+	}
+	return n
+}
+
 func TestPropCompose(t *testing.T) {
 	stats.Assume("polygons with 0..3 holes (holes of either orientation, closed or unclosed rings, empty rings and empty polygons included), multi-polygons, collections nested up to depth 2 with non-areal members and bounds; collection members are never nil; area tolerance as for rings (1e-6 relative for bound members), length tolerance 1e-12 relative")
+	stats.Assume("the measures only read their argument: every measured box ring, ring spelling and polygon/multi/collection is laid out as windows of one shared buffer, with spare capacity, or plainly; the whole backing arrays are compared bit for bit after each call; expected values come from an independent deep copy")
 	stats.Check(t, 80000, 2000000, func(rt *rapid.T) {
 		scale := logUniform(rt, -2, 0.3, "scale")
 		c0 := orb.Point{rapid.Float64Range(-160, 160).Draw(rt, "clon"), rapid.Float64Range(-80, 80).Draw(rt, "clat")}
 		g := genMember(rt, c0, scale, 2)
 		top := gen.KindOf(g)
-		c := Case{Kind: "geom", G: &gen.G{V: g}}
+		c := Case{Kind: "geom", G: &gen.G{V: g}, Layout: rapid.SampledFrom(layouts).Draw(rt, "layout")}
 		stats.Class("geom:" + top)
+		stats.Class("layout(geom):" + c.Layout)
+		if c.Layout != "plain" && countRings(g, true) >= 2 {
+			stats.Class("geom*:>= 2 rings with an unclosed one, shared buffer or spare capacity")
+		}
 		if p, ok := g.(orb.Polygon); ok && len(p) > 1 {
 			stats.Class("geom*:polygon with holes")
 		}
@@ -710,7 +763,7 @@ func TestEnumRingLattice(t *testing.T) {
 			idx++
 			size++
 			if stats.Mine(idx) {
-				c := Case{Kind: "ring", Ring: gen.Pts(verts)}
+				c := Case{Kind: "ring", Ring: gen.Pts(verts), Layout: layouts[idx%int64(len(layouts))]}
 				stats.Eval("TestEnumRingLattice", 1)
 				if n >= 5 {
 					stats.NonTrivial(gen.JSON(c))
